@@ -190,6 +190,10 @@ def drive(shard, prop, on_decoded, label, depth0_only=False, sample_every=1, var
         if exc is not None:
             if depth == 0:
                 H.count("decode_raised")
+                if state.get("compiler_output", True):
+                    # without decoded data the property cannot hold for this code object
+                    H.violation(prop, "to_code_data", "from_code raises on compiler output", state["case"],
+                                "%s: %s" % (type(exc).__name__, H.short(exc, 300)))
             return
         if depth0_only and depth != 0:
             return
@@ -210,6 +214,7 @@ def drive(shard, prop, on_decoded, label, depth0_only=False, sample_every=1, var
     mon = H.Monitor(_code_data, "to_code_data", post=post).install()
     for case, id_, code, text in corpus.iter_cases(shard):
         state["case"] = corpus.replay_case(case)
+        state["compiler_output"] = case["k"] not in ("w9",)
         try:
             cdm.CodeData.from_code(code)
         except Exception:
@@ -235,6 +240,7 @@ def drive(shard, prop, on_decoded, label, depth0_only=False, sample_every=1, var
                 for part in desc.split("+"):
                     H.feature("variant:" + part)
                 state["case"] = dict(corpus.replay_case(case), w11_variant=desc, w11_code=c.co_name, w11_line=c.co_firstlineno)
+                state["compiler_output"] = False      # hand-made layouts: a raise is not judged
                 try:
                     cdm.CodeData.from_code(v)
                 except Exception as e:
